@@ -1635,7 +1635,7 @@ func TestNumeric(t *testing.T) {
 		"durns 150000000", "durns -1", "durns 99999999", "durns 3600000000001",
 		"dtext 0", "dtext 5990000000", "dtext -5990000000", "dtext 604800000000000", "dtext 11793600000000000", "dtext 283132799900000000", "dtext 283132800000000000", "dtext -50000000", "dtext 9223372036854775807",
 		"dparse PT3276H", "dparse PT3220H30M", "dparse P1Y2M3W4DT5H6M7.8S", "dparse P1.5Y2M", "dparse P1.5Y2.5M", "dparse PT1H1H", "dparse P1W1D", "dparse P1DT", "dparse P", "dparse -P0D", "dparse P0", "dparse -P0",
-		"dparse PT90M", "dparse P40000D", "dparse P4000D", "dparse PT1,55S", "dparse PT.5S", "dparse PT5.S", "dparse P1T1H", "dparse PT1HT1M", "dparse P1H", "dparse PT1D", "dparse P1", "dparse 1D", "dparse +P1D", "dparse P3277Y", "dparse P3276.7Y",
+		"dparse PT90M", "dparse P40000D", "dparse P4000D", "dparse PT1,55S", "dparse PT.5S", "dparse PT5.S", "dparse P1T1H", "dparse PT1HT1M", "dparse P1H", "dparse PT1D", "dparse P1", "dparse 1D", "dparse +P1D", "dparse P3277Y", "dparse P3276.7Y", "dparse P300Y",
 		"instant 0 0", "instant -62135596800 0", "instant 253402300799 0", "instant 1727352000 7200", "instant 951782400 -34200",
 		"instantns 0 500000000", "instantns 1727352000 499999999", "instantns -62135596800 1",
 		"date 0", "date -62135596800", "date 253402300799", "date 951782400", "tod 0", "tod 86399", "tod 43200",
